@@ -234,8 +234,10 @@ def n0pretty(
                         else:
                             key = str(key)
 
-                        if sub_result:
+                        if sub_result.strip():
                             sub_result += ","
+                        elif sub_result:
+                            sub_result += " "  # only absent pairs so far: no separator, keep the column
                         sub_result += f" {key_type}{key}: {sub_item_result}"
                     else:
                         if sub_result:
